@@ -41,7 +41,7 @@ Record lcase := mk_lcase {
   le_iters : nat; le_nacc : nat;
   le_x : vec; le_y : vec; le_d : vec;                     (* user-space result *)
   le_announced : list (vec * vec * bool);                 (* (z_from, z_to, accept) *)
-  le_trials : list (Q * Q * bool);
+  le_trials : list (Q * Q * bool * Q * bool);             (* rho, dt, display |-> lamb, accepted *)
   le_path : list vec; le_times : list Q;
   le_reads : nat
 }.
@@ -69,8 +69,10 @@ Definition lc_run (c : lcase) : outcome LIt :=
 Definition ann_eqb (a : LIt * LIt * bool) (b : vec * vec * bool) : bool :=
   let '(f, t, acc) := a in let '(f', t', acc') := b in
   veqb (fst f ++ snd f) f' && veqb (fst t ++ snd t) t' && Bool.eqb acc acc'.
-Definition trial_eqb (a b : Q * Q * bool) : bool :=
-  let '(r, d, s) := a in let '(r', d', s') := b in qeqb r r' && qeqb d d' && Bool.eqb s s'.
+Definition trial_eqb (a : trial) (b : Q * Q * bool * Q * bool) : bool :=
+  let '(r', d', s', l', a') := b in
+  qeqb (t_rho a) r' && qeqb (t_dt a) d' && Bool.eqb (t_disp a) s'
+  && qeqb (t_lamb a) l' && Bool.eqb (t_acc a) a'.
 
 Definition fin_matches (c : lcase) (full : bool) (s : st LIt) : bool :=
   let P := trans_problem (lc_sc c) (quad_problem (lc_spec c)) in
